@@ -200,7 +200,7 @@ def main(path):
         out["status"] = "sample-index-not-found"
         print(json.dumps(out))
         return 2
-    if not rp.get("witness"):
+    if rp.get("witness") is None:
         out["status"] = "no-witness"
         print(json.dumps(out))
         return 1
